@@ -148,6 +148,16 @@ class FiltersSet:
         """Return value as a quoted string (quotes and backslashes are escaped)."""
         return '"%s"' % value.replace("\\", "\\\\").replace('"', '\\"')
 
+    def __add_match_type(self, cmd: commands.Command, tag: str):
+        """Add a match type to cmd and require the extension it belongs to.
+
+        The extensions loaded by the last parsed script must not matter here.
+        """
+        extension = commands.match_type["extension_values"].get(tag.lower())
+        if extension:
+            self.require(extension)
+        cmd.check_next_arg("tag", tag, check_extension=False)
+
     def __build_condition(
         self, condition: List[str], parent: commands.Command, tag: Optional[str] = None
     ) -> commands.Command:
@@ -162,7 +172,7 @@ class FiltersSet:
         if tag is None:
             tag = condition[1]
         cmd = commands.get_command_instance("header", parent)
-        cmd.check_next_arg("tag", tag)
+        self.__add_match_type(cmd, tag)
         if isinstance(condition[0], list):
             cmd.check_next_arg(
                 "stringlist", [self.__quote_if_necessary(c) for c in condition[0]]
@@ -234,7 +244,7 @@ class FiltersSet:
                     negate = True
                 else:
                     comp_tag = c[1]
-                cmd.check_next_arg("tag", comp_tag)
+                self.__add_match_type(cmd, comp_tag)
                 cmd.check_next_arg(
                     "stringlist",
                     "[{}]".format(",".join(self.__quote(val) for val in c[2])),
@@ -250,7 +260,7 @@ class FiltersSet:
                     negate = True
                 else:
                     comp_tag = c[1]
-                cmd.check_next_arg("tag", comp_tag)
+                self.__add_match_type(cmd, comp_tag)
                 for arg in c[2:]:
                     if isinstance(arg, str):
                         finalarg = self.__quote_if_necessary(arg)
@@ -269,7 +279,7 @@ class FiltersSet:
                     negate = True
                 else:
                     comp_tag = c[2]
-                cmd.check_next_arg("tag", comp_tag)
+                self.__add_match_type(cmd, comp_tag)
                 cmd.check_next_arg(
                     "stringlist", "[%s]" % (",".join(self.__quote(val) for val in c[3:]))
                 )
@@ -283,10 +293,9 @@ class FiltersSet:
                     negate = True
                 else:
                     comp_tag = c[3]
-                cmd.check_next_arg("tag", comp_tag, check_extension=False)
+                self.__add_match_type(cmd, comp_tag)
                 next_arg_pos = 4
                 if comp_tag == ":value":
-                    self.require("relational")
                     cmd.check_next_arg(
                         "string", self.__quote_if_necessary(c[next_arg_pos])
                     )
